@@ -174,4 +174,20 @@ CHECKS = {
         ref="§4 C04",
         note=_NOTE + " Equality with a textbook Miller-loop value is not claimed (the property does not ask for it). The k = 8/16/18/24/48 families are not built.",
         technique="TLC trace validation of recorded pairing evaluations against the bilinear relation over ghost logarithms (Tower/CurveX arithmetic)"),
+    "C09": dict(
+        text="Implementation-shaped models checked exhaustively by TLC: model/Recode (w-NAF, sliding/fixed window, regular recoding, "
+             "JSF as coded: all k < 2^10..2^12, w 2..8: exact representation, digit set, non-adjacency/regularity, Solinas' JSF "
+             "conditions, length bounds), model/Gcd (double-digit Lehmer with the W-bit cosequence and Euclid fallback, extended "
+             "Euclid, extended binary incl. the cofactor fix-up: all pairs below 2^7..2^10 at digit widths 2-4: gcd preserved, "
+             "Bezout, termination), model/ModRed (Barrett/Montgomery with final subtractions), MCJacobi (reciprocity-law Jacobi vs "
+             "definition). Conformance of 46 bn functions (reductions with their precomputed constants, exponentiations incl. 0 / "
+             "negative / over-long exponents, inverses, gcd family incl. bn_gcd_ext_mid lattice conditions, lcm, Legendre/Jacobi, "
+             "integer square root, primality tests on Carmichael numbers / strong pseudoprimes / prime squares / close-prime "
+             "products, prime generators, Lagrange/evaluation, recodings with capacity errors and guard pages) on the 8-bit-digit "
+             "build (exhaustive small ranges) and the shipped 64-bit build (operands to 1024 bits), each event judged by TLC against "
+             "BntSpec (BigNat/BigInt; relation form where a witness exists).",
+        ref="§4 C09",
+        note=_NOTE + " Primality of numbers >= 2^31 rests on isProbablePrime(128); the Gordon structure of bn_gen_prime_stron is "
+             "not observable (bit length and primality are); tnaf/rtnaf/frb/sac recodings are not driven here.",
+        technique="TLC model checking of transcribed recoding/gcd/reduction algorithms + TLC trace validation of recorded bn calls against the number-theoretic spec"),
 }
